@@ -7,6 +7,8 @@ import GdcVerif.Lemmas.J2kQuant
   * the 16-bit SPqcd field (exponent, mantissa) packs/unpacks without loss;
   * the mantissa/exponent chosen by `encodeQuantizationStep` (integer part, hand model) reproduce the
     fixed-point step to within one part in 2^11, from below;
+  * `encodeQuantizationStep` on float64 inputs (exact dyadic model incl. its float prefix): declared step ≤ requested
+    step < declared·(1+2^-11);
   * dead-zone quantiser + mid-point reconstruction: |x − x̂| ≤ Δ/2 outside the dead zone, |x| < Δ inside;
   * `Decoder.GetPixelData`'s clamp (four GENERATED loop bodies) equals the declared-range clamp for every
     int32 input, signed and unsigned, P = 1..16 (8-bit loops: P = 1..8) — unconditional;
@@ -57,6 +59,42 @@ theorem c12_step_encode_decode (fixed : Nat) (numbps : Int) (hf : fixed ≠ 0)
       simp only [em, encodeFixed, stepNum, h11, if_false]
       exact this
 example : encodeFixed 6000 8 = (9, 952) ∧ log2 6000 = 12 ∧ stepNum 952 * 2 = 6000 := by decide
+
+/-- (2'') what "declared step" means relative to the REQUESTED step: `encodeQuantizationStep` on a float64 step
+    `m·2^e` (exact dyadic model of its float prefix; here e < −13, step ≥ 2^-13, leading bit of the fixed-point
+    value above 2^11, exponent not clamped) writes a word whose decoded value D·2^-13 (D = (2048+mant)·2^(l−11))
+    satisfies  D·2^k ≤ m < (D + 2^(l−11))·2^k  with k = −e−13: declared ≤ requested < declared·(1 + 2^-11).
+    How the requested step follows from Quality (math.Pow, norm table) is not modelled — it is the float64
+    `StepSizes[i]`, fed to the model by the correspondence op `j2k-encstep`. -/
+theorem c12_declared_vs_requested (m : Nat) (e numbps : Int) (he : e + 13 < 0)
+    (hm : 2 ^ (-(e + 13)).toNat ≤ m)
+    (hlo : 0 ≤ numbps - ((log2 (fixedOfDyadic m e) : Int) - 13))
+    (hhi : numbps - ((log2 (fixedOfDyadic m e) : Int) - 13) ≤ 31)
+    (hl : 11 < log2 (fixedOfDyadic m e)) :
+    let fixed := fixedOfDyadic m e
+    let em := encodeFixed fixed numbps
+    let D := stepNum em.2 * 2 ^ (log2 fixed - 11)
+    unpack (encodeStepDyadic m e numbps) = em ∧
+    D * 2 ^ (-(e + 13)).toNat ≤ m ∧ m < (D + 2 ^ (log2 fixed - 11)) * 2 ^ (-(e + 13)).toNat := by
+  show unpack (encodeStepDyadic m e numbps) = encodeFixed (fixedOfDyadic m e) numbps ∧
+    stepNum (encodeFixed (fixedOfDyadic m e) numbps).2 * 2 ^ (log2 (fixedOfDyadic m e) - 11) * 2 ^ (-(e + 13)).toNat ≤ m ∧
+    m < (stepNum (encodeFixed (fixedOfDyadic m e) numbps).2 * 2 ^ (log2 (fixedOfDyadic m e) - 11) +
+      2 ^ (log2 (fixedOfDyadic m e) - 11)) * 2 ^ (-(e + 13)).toNat
+  have hp : 0 < 2 ^ (-(e + 13)).toNat := Nat.pow_pos (by decide)
+  have hm0 : m ≠ 0 := fun h => by rw [h] at hm; omega
+  have hf0 := fixedOfDyadic_ne_zero m e
+  obtain ⟨h1, _, h3, _⟩ := c12_step_encode_decode (fixedOfDyadic m e) numbps hf0 hlo hhi
+  obtain ⟨d1, d2⟩ := h3 hl
+  obtain ⟨f1, f2⟩ := fixed_floor m e he hm
+  refine ⟨?_, ?_, ?_⟩
+  · simp only [encodeStepDyadic, hm0, if_false]; exact h1
+  · exact Nat.le_trans (Nat.mul_le_mul_right _ d1) f1
+  · have hle : fixedOfDyadic m e + 1 ≤ stepNum (encodeFixed (fixedOfDyadic m e) numbps).2 * 2 ^ (log2 (fixedOfDyadic m e) - 11) +
+        2 ^ (log2 (fixedOfDyadic m e) - 11) := by
+      rw [Nat.add_mul, Nat.one_mul] at d2; omega
+    exact Nat.lt_of_lt_of_le f2 (Nat.mul_le_mul_right _ hle)
+example : fixedOfDyadic 6000 (-13 - 0) = 6000 ∧ fixedOfDyadic 49155 (-16) = 6144 ∧
+    unpack (encodeStepDyadic 49155 (-16) 8) = (9, 1024) := by decide
 
 /-- (2') the encoder's and the decoder's gain conventions differ by exactly the sub-band gain:
     `OpenJPEGRuntimeQuantizationSteps` (encoder) uses 2^g, `log2GainForSubband` (decoder, 9/7) uses 2^0 —
